@@ -79,11 +79,12 @@ Definition pairwise_disjoint (L : list entry) : Prop :=
   ForallOrdPairs (fun a b => disjoint (snd a) (snd b)) L.
 
 (* "a run of consecutive OPTIONAL/DEFAULT components and the component
-   following it": positions i < j with everything in [i, j) optional *)
+   following it": a, then a stretch of OPTIONAL/DEFAULT components, then b,
+   with a itself OPTIONAL/DEFAULT *)
 Definition runs_ok (L : list entry) : Prop :=
-  forall i j ei ej, (i < j)%nat -> nth_error L i = Some ei -> nth_error L j = Some ej ->
-    (forall k ek, (i <= k < j)%nat -> nth_error L k = Some ek -> fst ek = true) ->
-    disjoint (snd ei) (snd ej).
+  forall L1 a pre b post, L = L1 ++ a :: pre ++ b :: post ->
+    fst a = true -> Forall (fun e => fst e = true) pre ->
+    disjoint (snd a) (snd b).
 
 Definition is_reference (t : ty) : Prop := match t with TRef _ => True | _ => False end.
 Inductive resolves : nat -> Prop :=
